@@ -94,12 +94,17 @@ harness!(fob_drop_c2, fob::step_drop(&OCfg { cap: 2, max_parked: 1, selfwakes: 0
 harness!(fob_new, fob::construct(2));
 harness!(fo_new, fob::construct_unbounded(2));
 harness!(fo_poll_c2, crate::fo::step_poll(&OCfg { cap: 2, max_parked: 1, selfwakes: 0 }));
+harness!(fo_poll_c1, crate::fo::step_poll(&OCfg { cap: 1, max_parked: 1, selfwakes: 0 }));
+harness!(fo_poll_c1_p0, crate::fo::step_poll(&OCfg { cap: 1, max_parked: 0, selfwakes: 0 }));
+harness!(fo_poll_c2_lo, crate::fo::step_poll_out(&OCfg { cap: 2, max_parked: 1, selfwakes: 0 }, Some(usize::MAX >> 1)));
+harness!(fo_poll_c2_hi, crate::fo::step_poll_out(&OCfg { cap: 2, max_parked: 1, selfwakes: 0 }, Some(usize::MAX)));
 harness!(fo_observe_c2, crate::fo::step_observe_push(&OCfg { cap: 2, max_parked: 1, selfwakes: 0 }));
 // merges
 harness!(mb_poll_c2, mg::step_poll(&MCfg { cap: 2, selfwakes: 1, items: 1, quiet: false }));
 harness!(mb_poll_c2_quiet, mg::step_poll(&MCfg { cap: 2, selfwakes: 0, items: 1, quiet: true }));
 harness!(mu_poll_12_c0, mg::step_poll_unbounded(&MUCfg { caps: [1, 2], cursor: 0, selfwakes: 0, items: 1 }));
 harness!(mu_push_12, mg::step_push_unbounded(&MUCfg { caps: [1, 2], cursor: 0, selfwakes: 0, items: 0 }));
+harness!(mb_push_c2, mg::step_push(&MCfg { cap: 2, selfwakes: 0, items: 0, quiet: false }));
 harness!(mb_end_many_6, mg::end_many());
 harness!(mu_rot_124_c0, mg::rot_unbounded(0, 0b001, 0b001));
 harness!(mu_rot_124_c1, mg::rot_unbounded(1, 0b111, 0b011));
@@ -207,6 +212,10 @@ pub fn table() -> &'static [(&'static str, fn())] {
         ("fo_new", fo_new),
         ("fo_poll_c2", fo_poll_c2),
         ("fo_observe_c2", fo_observe_c2),
+        ("fo_poll_c1", fo_poll_c1),
+        ("fo_poll_c1_p0", fo_poll_c1_p0),
+        ("fo_poll_c2_lo", fo_poll_c2_lo),
+        ("fo_poll_c2_hi", fo_poll_c2_hi),
         ("fob_poll_c2_p0", fob_poll_c2_p0),
         ("ja_poll_n2", ja_poll_n2),
         ("tja_poll_n2", tja_poll_n2),
@@ -227,6 +236,7 @@ pub fn table() -> &'static [(&'static str, fn())] {
         ("mu_poll_12_c0", mu_poll_12_c0),
         ("mu_poll_12_c1", mu_poll_12_c1),
         ("mb_end_many_6", mb_end_many_6),
+        ("mb_push_c2", mb_push_c2),
         ("mu_rot_124_c0", mu_rot_124_c0),
         ("mu_rot_124_c1", mu_rot_124_c1),
         ("fub_stale_many", fub_stale_many),
